@@ -10,6 +10,9 @@ CHECKS = {
  "C02": ("exploration", "runtime monitoring: real key generations in the simulator, consistent-key-material oracle with reference Lagrange over every (t+1)-subset",
          "Seeded exploration over (protocol, n, t, identifier alphabet, scheduler); the oracle compares tables across parties, own share vs own entry, and reconstructs from every enumerated (t+1)-subset of secrets and of table entries; a t-subset must not reconstruct.",
          "Trusts verif/ref Lagrange and secp256k1; CMP primes from the pool (hook H1).", "5/C02"),
+ "C17": ("exploration", "Go race detector over multi-goroutine handler workloads + offline lifecycle history checking (porcupine nondeterministic write-once model, close-exactly-once and terminal/closed invariants)",
+         "Every party's handler is driven concurrently by feeders (CanAccept+Accept, duplicates), a drainer, pollers and a stopper at seeded points, then by post-end call sequences, for detproto, FROST, Doerner and CMP sign with a pool, in a -race build: repository-internal race reports are violations; recorded call/return histories are checked for panics, exactly-once close, closed<=>terminal, Stop effect, write-once Result (linearizability), nothing emitted after the end, no blocked call.",
+         "Race reports depend on the interleavings that occurred; parties never share objects; checker timeouts are inconclusive.", "5/C17"),
  "C18": ("exploration", "runtime monitoring with verif yield hooks: pairwise gates and seeded yield vectors at the pool's synchronisation points, hook-free stress, goroutine-dump conservation oracle",
          "Explores interleavings of caller and workers by holding a worker point until a caller point happened (and the reverse) for every pair and small configurations, by seeded yield vectors, and by stress with instant tasks; oracles are exact results, exactly-once evaluation, genuine distinct Search results, return (deadlock decided from a goroutine dump), and no worker parked in chan send after a call returned.",
          "Trusts runtime.Stack goroutine states; hooks only delay.", "5/C18"),
